@@ -1,4 +1,5 @@
 import ZCV.Lemmas.Misc
+import ZCV.Lemmas.LoadSpec
 import ZCV.Model.Conv
 namespace ZCV.Props.C01
 open ZCV ZCV.Cfg
@@ -24,5 +25,40 @@ theorem C01_key_routing (children : List (Option Str × Info)) (rk : Str) :
 theorem C01_unknown_key_rejected (m : Matcher) (key rk v : Str) (pos : Pos) (h : route m.ty.children rk = none) :
     ∃ e, addValueCore m key rk v pos = .error (.cfg e) ∧ e.kind = .plain :=
   addValueCore_unknown_rejected m key rk v pos h
+
+open ZCV.Conf in
+/-- **Accepted ⇔ conforms.**  For every schema the schema loader can produce (`schemaOK`), every family of datatype
+    functions and every configuration tree (any size, nesting depth, number of simultaneous faults) whose headers are
+    spelled as the parser spells them (`tyCanon`): the loader returns a configuration if and only if the tree conforms
+    to the schema (`ZCV/Spec/Conforms.lean`). -/
+theorem C01_accept_iff_conforms (conv : Conv) (s : Schema) (items : List Item)
+    (hs : schemaOK s = true) (ht : tyCanon s items = true) :
+    (∃ v, loadTree conv s items = .ok v) ↔ conforms conv s items = true := by
+  have h := loadTree_eq_denote conv s items hs ht
+  unfold conforms
+  constructor
+  · rintro ⟨v, hv⟩
+    rw [hv] at h
+    simp only [Except.toOption] at h
+    rw [← h]; rfl
+  · intro hc
+    cases hl : loadTree conv s items with
+    | ok v => exact ⟨v, rfl⟩
+    | error e =>
+      rw [hl] at h
+      simp only [Except.toOption] at h
+      rw [← h] at hc
+      simp at hc
+
+open ZCV.Conf in
+/-- a non-conforming tree yields no configuration object: the outcome is an error -/
+theorem C01_nonconforming_rejected (conv : Conv) (s : Schema) (items : List Item)
+    (hs : schemaOK s = true) (ht : tyCanon s items = true) (hn : conforms conv s items = false) :
+    ∃ e, loadTree conv s items = .error e := by
+  cases hl : loadTree conv s items with
+  | error e => exact ⟨e, rfl⟩
+  | ok v =>
+    have := (C01_accept_iff_conforms conv s items hs ht).mp ⟨v, hl⟩
+    rw [hn] at this; cases this
 
 end ZCV.Props.C01
